@@ -140,6 +140,27 @@ def group_hll_tables():
     out += ["", "end Pds.Generated", ""]
     return out
 
+def kernel_group(name):
+    """Translate the functions of one kernel group (tools/kernels_spec.py) with tools/rustkern.py."""
+    sys.path.insert(0, os.path.join(ROOT, "tools"))
+    import rustkern, kernels_spec
+    out = []
+    for spec in kernels_spec.GROUPS[name]:
+        try:
+            src = open(os.path.join(REPO, spec["file"])).read()
+            text = rustkern.find_fn(src, spec["fn"], spec.get("impl"), spec.get("nth", 0))
+            for pat, rep in spec.get("subst", []):
+                text, n = re.subn(pat, rep, text)
+                if n != 1: die("%s::%s: substitution /%s/ matched %d times" % (spec["file"], spec["fn"], pat, n))
+            res = spec.get("result", ("value",))
+            fn = rustkern.parse_fn(text, res[1] if res[0] == "lets" else None)
+            spec = dict(spec, doc="translated from `%s`, fn `%s`" % (spec["file"], spec["fn"]))
+            lean, _, _ = rustkern.emit_kernel(fn, spec, spec.get("calls", {}))
+        except rustkern.Unrecognised as ex:
+            die("%s fn %s: %s" % (spec["file"], spec["fn"], ex))
+        out += lean.rstrip("\n").split("\n") + [""]
+    return out
+
 def previous_group(path, name):
     """lines of group `name` in the Consts file generated last time (kept when the group's source is
     not recognised now, so that the file still compiles; the group is reported as failed)"""
@@ -176,6 +197,26 @@ def main():
         status["hll_tables"] = "unrecognised: %s" % ex
         if not os.path.exists(os.path.join(ROOT, "lean/Pds/Generated/HllData.lean")):
             sys.stderr.write("translate.py: hll_tables: %s\n" % ex); sys.exit(1)
+    # translated arithmetic kernels (logic, not constants): one generated module per group, so that a group
+    # that is no longer recognised (or no longer provably equal to the model) breaks only its own tie
+    sys.path.insert(0, os.path.join(ROOT, "tools"))
+    import kernels_spec
+    for name in kernels_spec.GROUPS:
+        kpath = os.path.join(ROOT, "lean/Pds/Generated/Kernels/%s.lean" % kernels_spec.MODULE[name])
+        head = ["/- GENERATED by tools/translate.py (tools/rustkern.py) from function bodies in /repo/src; do not edit.",
+                "   Each definition is proved equal to the hand-written model's function in Pds/Proofs/KernelTie/. -/",
+                "import Pds.Model.KernelOps"] + ["import Pds.Generated.Kernels." + m for m in kernels_spec.IMPORTS.get(name, [])] + [
+                "set_option linter.unusedVariables false", "namespace Pds.Generated.Kernels", "open Pds", "",
+                "variable {α : Type} [Add α] [Sub α] [Mul α] [Div α] [Neg α] [LT α] [LE α] [DecidableLT α] [DecidableLE α] [DecidableEq α] [KOps α]", ""]
+        try:
+            lines = kernel_group(name)
+            status[name] = "ok"
+        except (Unrecognised, OSError, ValueError) as ex:
+            status[name] = "unrecognised: %s" % ex
+            lines = previous_group(kpath, name)
+            if lines is None:
+                sys.stderr.write("translate.py: %s: %s (and no previous output to keep)\n" % (name, ex)); sys.exit(1)
+        write_if_changed(kpath, "\n".join(head + ["-- group: " + name] + lines + ["-- end group: " + name, "", "end Pds.Generated.Kernels", ""]))
     os.makedirs(os.path.join(ROOT, "work"), exist_ok=True)
     json.dump(status, open(os.path.join(ROOT, "work", "translate_status.json"), "w"), indent=1)
     for k, v in status.items():
